@@ -59,6 +59,10 @@ pub fn based_files(corpus: bool) -> Vec<Based> {
         let e = f.encode_full(true);
         v.push(Based { name: n.to_string(), bytes: e.bytes, fields: e.fields });
     }
+    {
+        let e = gen::d1(&Fmt::Indexed(4)).encode_full(true);
+        v.push(Based { name: "d1i".to_string(), bytes: e.bytes, fields: e.fields });
+    }
     if corpus {
         for n in ["basic-16x16", "tilemap_indexed", "user_data", "linked_cels", "slice", "palette", "256_color_old_palette_chunk", "layers_and_tags", "tilemap_multi", "indexed"] {
             if let Ok(b) = std::fs::read(format!("/repo/tests/data/{}.aseprite", n)) {
@@ -616,14 +620,14 @@ pub fn all_families(tier: Tier) -> Vec<InputFam> {
     let bases = based_files(thorough);
     let gen_bases: Vec<Based> = based_files(false);
     let mut v = Vec::new();
-    let n_m1 = if thorough { 4 } else { 3 };
+    let n_m1 = if thorough { 5 } else { 3 };
     v.extend(m1(&gen_bases[..n_m1], true));
     if thorough {
-        v.extend(m1(&bases[4..], false));
+        v.extend(m1(&bases[5..], false));
     }
     v.extend(m2(&gen_bases, false));
     if thorough {
-        v.extend(m2(&bases[4..], false).into_iter().filter(|f| f.name.starts_with("M2-field")));
+        v.extend(m2(&bases[5..], false).into_iter().filter(|f| f.name.starts_with("M2-field")));
         v.extend(m2(&gen_bases[..1], true).into_iter().filter(|f| f.name.starts_with("M2-pairs")).map(|mut f| {
             f.name = format!("{}-allfields", f.name);
             f
